@@ -563,7 +563,7 @@ def c19(rep, W, ctx, rule="C19"):
         for c, cd in cols.items():
             if c not in base["tables"].get(tb, {}):
                 rep.fail(rule + ".SCHEMA", (tb, c, "new-column"), "column %s.%s does not exist in databases written by the pinned release and no ALTER TABLE ... ADD COLUMN migrates them" % (tb, c))
-    rep.floor(rule + ".SCHEMA", "columns used by statements", len(used), 10)
+    rep.floor(rule + ".SCHEMA", "columns used by statements", len(used), 8)
     # ENC
     rep.ob(rule + ".ENC", ("uuid", "encoder"), cur["uuid_encoder"] == base["uuid_encoder"],
            "ids are written / looked up as %s; the pinned release wrote %s (equality lookups need the identical text form)" % (cur["uuid_encoder"], base["uuid_encoder"]))
